@@ -53,11 +53,20 @@ pub fn generate(rng: &mut Rng, tier: &str, shard: usize, nshards: usize, out: &m
     let max_abs: i64 = if thorough { 1000 } else { 120 };
     let mut n = 0usize;
     let mut emit = |line: String, n: &mut usize| { *n += 1; if *n % nshards == shard { out(line); } };
-    // integers -120..120 exhaustively (thorough: -1000..1000)
-    for k in -max_abs..=max_abs { emit(format!("C13\texp\t{}@0\t{}", k, prec), &mut n); }
-    let total = if thorough { 60_000 } else { 1_500 };
+    // integers -120..120 exhaustively; thorough adds every 37th integer out to +-1000 (each of those
+    // costs seconds: thousands of series terms on thousand-digit numbers)
+    for k in -120i64..=120 { emit(format!("C13\texp\t{}@0\t{}", k, prec), &mut n); }
+    if thorough {
+        let mut k = 121i64;
+        while k <= 1000 { emit(format!("C13\texp\t{}@0\t{}", k, prec), &mut n); emit(format!("C13\texp\t{}@0\t{}", -k, prec), &mut n); k += 37; }
+        emit(format!("C13\texp\t1000@0\t{}", prec), &mut n); emit(format!("C13\texp\t-1000@0\t{}", prec), &mut n);
+    }
+    let total = if thorough { 4_000 } else { 1_500 };
     for _ in 0..total {
-        let x = gen_arg(rng, max_abs);
+        // thorough: most arguments within +-150, one in ten out to +-400, one in forty out to +-1000
+        // (model and enclosure oracle cost minutes per thousand of the large ones)
+        let lim = if !thorough { max_abs } else if rng.chance(1, 40) { 1000 } else if rng.chance(1, 10) { 400 } else { 150 };
+        let x = gen_arg(rng, lim);
         if rng.chance(1, 8) {
             // ordered pair: y slightly above x
             let (xi, xs) = x.as_bigint_and_exponent();
